@@ -60,6 +60,6 @@ def run(ctx):
     return verif.finish(ctx, "exploration", cov,
                         ["oracle = Fn_Diff.tla (DiffOK), taken from the statement and the documented meaning of the diff modifiers; TLC evaluates it on every recorded diff",
                          "'U' and '?' modifiers are not constrained except that nothing may be listed inside identical subtrees; statistics are not judged",
-                         "content identity = list of content ids (files) / link target (symlinks); metadata token = the generator's metadata variant",
-                         "snapshots are hand-built with the real TreeWriter/SaveBlob/SaveSnapshot so that untouched subtrees are bit-identical",
-                         "trees of depth <= 3 over names {a, a.b, a-b, ab, b, B}; <= 3 edits per pair"])
+                         "content identity = the generator's content key: files = list of chunk keys, one data blob per chunk (0-6 tiny blobs instead of real chunker output); symlinks = link target; metadata token = the generator's metadata variant",
+                         "snapshots are hand-built with the real TreeWriter/SaveBlob/SaveSnapshot so that untouched subtrees are bit-identical and copies of a subtree / file share tree / content blobs; the driver confirms on every stored snapshot that directories share a tree blob exactly when the generator says they are identical (else MACHINERY-ERROR), and that every run contains diffs with a shared non-empty tree below an added/removed directory and a blob list extended on a blob boundary",
+                         "trees of depth <= 5 over names {a, a.b, a-b, ab, b, B}; <= 3 edits per pair"])
